@@ -170,13 +170,22 @@ func c18RealOracle(sc *Scenario, rr *RealResult) *Violation {
 		harnessFail("watchdog on the real-directory run")
 	}
 	dir, entries, listOK := c18Expected(sc)
-	if !listOK {
-		return nil
-	}
+	unreadable := !listOK
 	for _, e := range entries {
 		if _, ok := sc.Disk.Get(filepath.Join(dir, e.Name)); !ok {
-			return nil // not a fault-free scenario
+			unreadable = true // missing, or a directory, in the image: a fault a real directory can show too
 		}
+	}
+	if unreadable {
+		if rr.Exit == 0 {
+			return &Violation{Class: "real-disk", Signature: "real-disk:partial-on-fault:exit0",
+				Detail: "on a real directory a listed file (or the list) is missing or a directory, yet the shipped tool exits 0"}
+		}
+		if len(rr.Changed) > 0 {
+			return &Violation{Class: "real-disk", Signature: "real-disk:partial-on-fault:wrote",
+				Detail: fmt.Sprintf("on a real directory a listed file (or the list) is missing or a directory, yet the shipped tool changed %v", sortedKeys(rr.Changed))}
+		}
+		return nil
 	}
 	if rr.Exit != 0 {
 		return &Violation{Class: "real-disk", Signature: "real-disk:exit", Detail: fmt.Sprintf("on a real directory the shipped tool exits %d although every file is readable: %s", rr.Exit, tail(rr.Stderr, 300))}
@@ -250,7 +259,7 @@ var c18Contents = []string{
 	"[gen_x.go](./gen_x.go)\n", "## Folang Sample \n", "a\r\nb\r\n", "%d %s %v\n", "\\n not a newline\n",
 }
 
-var c18Titles = []string{"", "Title", "Two words", "Several   spaces  here", " leading space", "trailing space ", "# hash", "`tick`", "日本語 title", "a.fo b.fo", "-", "### x"}
+var c18Titles = []string{"100% done", "%s", "50%d%% off %v", "", "Title", "Two words", "Several   spaces  here", " leading space", "trailing space ", "# hash", "`tick`", "日本語 title", "a.fo b.fo", "-", "### x"}
 
 func c18Scenario(c *Ctx, r *common.Rng, run int) *Scenario {
 	sc := &Scenario{V: 1, Property: "C18", Seed: c.Seed, Run: run, Program: "build_sample_md", Enum: EnumSched{Mode: "identity"}}
@@ -272,6 +281,8 @@ func c18Scenario(c *Ctx, r *common.Rng, run int) *Scenario {
 			name = fmt.Sprintf("noext%d", i)
 		case r.Chance(1, 10):
 			name = fmt.Sprintf("dots.%d.fo.fo", i)
+		case r.Chance(1, 10):
+			name = fmt.Sprintf("%s%d.fo", r.Pick("info", "foo", "of.", "p%d", "f", "o.f.o"), i) // stems ending in the suffix's letters, a percent sign
 		default:
 			name = fmt.Sprintf("s%d.fo", i)
 		}
@@ -389,7 +400,18 @@ func checkC18(tier string) {
 		if i%997 == 0 {
 			c.addSample(map[string]any{"argv": sc.Argv, "fault": sc.Note, "exit": res.Exit, "writes": len(res.Writes()), "stderr_head": clip(res.Stderr, 100)}, 12)
 		}
-		return outcome{sc, c18Oracle(sc, res)}
+		v := c18Oracle(sc, res)
+		// faults a real directory can show as well (missing file, directory in its place): the shipped tool too
+		if v == nil && kind != "error" && i%20 == 0 {
+			rs := sc.Clone()
+			rs.Real = true
+			rs.Note += " real-directory"
+			c.count("real_directory_runs_with_natural_fault", 1)
+			if rv := judgeC18(c, rs); rv != nil {
+				return outcome{rs, rv}
+			}
+		}
+		return outcome{sc, v}
 	}, nil)
 
 	c.phase("shipped tool on real directories")
